@@ -226,6 +226,9 @@ def r08f(F):
 			'%s confirmation_threshold base = %s (expected self.height + ANTI_REORG_DELAY - 1 = height + %d)' % (label, expr_str(best) if best else [expr_str(x[2]) for x in cands][:4], c['ARD'] - 1), max(1, len(cands)), where=F.where(fu.name)))
 	out += P7_guard(F, '08.f', MONP + 'OnchainEventEntry::has_reached_confirmation_threshold', 'threshold reached', r'best_block\.height$', r'confirmation_threshold\(self\)$', 'Ge', 0)
 	out += P7_guard(F, '08.f', 'lightning::chain::onchaintx::OnchainEventEntry::has_reached_confirmation_threshold', 'threshold reached (onchaintx)', r'^height$', r'confirmation_threshold\(self\)$', 'Ge', 0)
+	# the restart-time replay waits for the same depth as the live path (a fail-back after 1 confirmation gives the upstream HTLC up while a reorg can still hand the downstream one to the peer)
+	import chainrules
+	out += chainrules.restart_replay_guard(F, '08.f')
 	return out
 
 def r08g(F):
